@@ -563,6 +563,12 @@ def main():
         if lost and tier == 'quick':
             gen_tier = 'thorough'          # violation search: escalate
             notes.append('escalated to the thorough generator because an obligation/correspondence was lost')
+        elif tier == 'quick' and any(('kept previous' in n or 'could not' in n or 'TranslateError' in n or 'ExpandError' in n)
+                                     for n in notes):
+            # a translator could not follow the new source text: its obligation was checked against the PREVIOUS text only,
+            # so the correspondence has to carry this run alone -- spend the thorough budget on it (DESIGN 3.3 / 4.2 E)
+            gen_tier = 'thorough'
+            notes.append('escalated to the thorough generator because a translator could not translate the current source')
         for (op, a, cls) in prop.gen(rng, gen_tier):
             cases.append({'op': op, 'args': a, 'class': cls})
     lines = [case_line(ops, c['op'], c['args']) for c in cases]
